@@ -14,7 +14,7 @@ ID = "C02"
 LEVEL = "proof"
 PROPS_FILE = "C02.v"
 RUN_MODULE = "RunC02"
-TRANSLATOR_UNITS = ["dsl"]
+TRANSLATOR_UNITS = ["dsl", "pyrtl_lhs"]
 SHARD = 60
 RULE = ("seeded random DSL designs: 1-3 modules (submodules of the top module or of each other) driving disjoint signals; comb + 1-3 "
         "clock domains (posedge / negedge, synchronous / asynchronous / no reset), every sync signal in one domain; nesting depth<=3 of "
